@@ -10,6 +10,10 @@ from . import hir as H
 from .facts import walk
 
 
+INT_BITS = {"u8": (8, False), "u16": (16, False), "u32": (32, False), "u64": (64, False), "usize": (64, False), "u128": (128, False),
+            "i8": (8, True), "i16": (16, True), "i32": (32, True), "i64": (64, True), "isize": (64, True), "i128": (128, True)}
+
+
 class Unsupported(Exception):
     pass
 
@@ -412,6 +416,12 @@ class Interp:
                 return n_ & {"u8": 0xFF, "u16": 0xFFFF}.get(ty_, 0xFFFFFFFFFFFFFFFF)
             if isinstance(v_, int) and not isinstance(v_, bool) and ty_ == "char":
                 return Ch(chr(v_ & 0xFF))
+            if isinstance(v_, int) and not isinstance(v_, bool) and ty_ in INT_BITS:
+                # integer-to-integer `as` wraps to the target width
+                bits, signed = INT_BITS[ty_]
+                v_ &= (1 << bits) - 1
+                if signed and v_ >= 1 << (bits - 1):
+                    v_ -= 1 << bits
             return v_
         if k == "binary":
             op = e["op"]
@@ -1363,6 +1373,9 @@ ITER_BUILTINS = {"chars": _chars, "take": _take, "all": _all, "any": _any,
                  "for_each": lambda it, r, a, d: ([it.apply_closure(a[0], [x], d) for x in list(r)], ())[1],
                  "count": lambda it, r, a, d: len(list(r)),
                  "position": lambda it, r, a, d: next((("__some", i) for i, x in enumerate(list(r)) if it._bool(it.apply_closure(a[0], [x], d))), None),
+                 "find": lambda it, r, a, d: next((("__some", x) for x in list(r) if it._bool(it.apply_closure(a[0], [x], d))), None),
+                 "find_map": lambda it, r, a, d: next((v for v in (it.apply_closure(a[0], [x], d) for x in list(r)) if v is not None), None),
+                 "chain": lambda it, r, a, d: list(r) + list(a[0]),
                  "zip": lambda it, r, a, d: list(zip(list(r), list(a[0]))),
                  "enumerate": lambda it, r, a, d: [(i, x) for i, x in enumerate(list(r))],
                  "iter": lambda it, r, a, d: list(r), "into_iter": lambda it, r, a, d: list(r),
